@@ -137,6 +137,7 @@ func (g *Generator) NewSchemaRefForValue(value any, schemas openapi3.Schemas) (*
 	// struct met again below a slice or a map: the slice's or the map's); the component it names is
 	// the schema generated for the named type itself
 	own := make(map[string]*openapi3.Schema, len(g.Types))
+	rank := make(map[string]int, len(g.Types))
 	for t, ref := range g.Types {
 		named, direct := t, true
 		for named.Kind() == reflect.Ptr {
@@ -145,9 +146,17 @@ func (g *Generator) NewSchemaRefForValue(value any, schemas openapi3.Schemas) (*
 		if named.Name() == "" || ref.Value == nil {
 			continue
 		}
-		// the schema generated for T itself is preferred to the one generated for *T
-		if _, ok := own[g.generateTypeName(named)]; direct || !ok {
-			own[g.generateTypeName(named)] = ref.Value
+		// a type met a second time is referred to by name with an empty placeholder: the schema with
+		// content is the type's own; among those, the one generated for T itself is preferred to *T's
+		r := 1
+		if v := ref.Value; v.Properties != nil || v.Items != nil || v.AdditionalProperties.Schema != nil || v.Type != nil {
+			r += 2
+		}
+		if direct {
+			r++
+		}
+		if name := g.generateTypeName(named); r > rank[name] {
+			own[name], rank[name] = ref.Value, r
 		}
 	}
 	for ref := range g.SchemaRefs {
